@@ -433,6 +433,20 @@ func SA(r *R) abs.Payload {
 			sa.Proposals = append(sa.Proposals, sa.Proposals[dupIdx(r, i)]) // an identical proposal again
 			continue
 		}
+		if i > 0 && r.Chance(1, 5) {
+			// a variant of an earlier proposal: the same transforms plus / minus a few (AES-128 or AES-256, with and
+			// without a second DH group)
+			q := sa.Proposals[dupIdx(r, i)]
+			v := abs.Proposal{Num: r.Byte(), Proto: q.Proto, SPI: q.SPI, Transforms: append([]abs.Transform{}, q.Transforms...)}
+			if len(v.Transforms) > 1 && r.Bool() {
+				v.Transforms = v.Transforms[:len(v.Transforms)-1]
+			}
+			for x := r.Intn(3); x > 0 && len(v.Transforms) < 250; x-- {
+				v.Transforms = append(v.Transforms, Transform(r, uint8(1+r.Intn(5))))
+			}
+			sa.Proposals = append(sa.Proposals, v)
+			continue
+		}
 		sa.Proposals = append(sa.Proposals, Proposal(r))
 	}
 	return abs.Payload{Kind: abs.PSA, SA: sa}
